@@ -495,7 +495,12 @@ func (ndb *nodeDB) deleteVersion(version int64, cache *rootkeyCache) error {
 				// to (version, 0), because the root (version, 1) should be removed but not
 				// applied now due to the batch writing. The orphan itself may be shared
 				// with concurrent readers through the node cache, so it is not modified.
-				nk = &NodeKey{version: nk.version, nonce: 0}
+				rnk := &NodeKey{version: nk.version, nonce: 0}
+				if err := ndb.deleteFromPruning(ndb.nodeKey(rnk.GetKey())); err != nil {
+					return err
+				}
+				// the orphan can also be a single-leaf root that later trees reused as a
+				// child: it is still stored under its own key, which is deleted below
 			}
 			return ndb.deleteFromPruning(ndb.nodeKey(nk.GetKey()))
 		}); err != nil && !errors.Is(err, ErrVersionDoesNotExist) {
